@@ -42,13 +42,13 @@ Ltac crush_step H :=
   end;
   try (injection H as <-).
 
-Lemma inv_init : Inv init.
-Proof. unfold Inv, init, uh, replies_of; cbn. pose proof L_pos. lia. Qed.
+Lemma inv_init p : Inv (init_p p).
+Proof. unfold Inv, init_p, uh, replies_of; cbn. pose proof L_pos. lia. Qed.
 
 Lemma inv_step s l s' : Inv s -> step limit s l = Some s' -> Inv s'.
 Proof.
   intros (A & B & C & D) Hs. pose proof L_pos as LP.
-  destruct s as [sent0 replied0 awaited0 inq0 hist0 dlv0 hp0 rdy0 sl0 counter0 recv0 cblog0].
+  destruct s as [sent0 replied0 awaited0 inq0 hist0 dlv0 hp0 rdy0 sl0 counter0 recv0 cblog0 pipe0 inflight0].
   unfold uh in *. cbn in A, B, C, D.
   destruct l; cbn in Hs; crush_step Hs; subst; unfold Inv, uh; cbn;
     rewrite ?ro_snoc_await, ?ro_snoc_reply, ?ro_cons_await, ?ro_cons_reply, ?app_length in *; cbn [length] in *;
@@ -70,8 +70,12 @@ Qed.
 
 (* callbacks *)
 Definition pend (h : hpc) : list upd := match h with HCb u => [u] | _ => [] end.
+(* the merged log of RollForwardFunc / ApplyFunc / RollBackwardFunc calls, then what the
+   pipeline still holds (in sequence order), then the callback the handler is about to
+   make: together exactly the updates taken so far, in the server's order *)
 Definition KInv (s : st) : Prop :=
-  cblog s ++ pend (hp s) = replies_of (dlv s) /\ dlv s ++ inq s = hist s.
+  cblog s ++ inflight s ++ pend (hp s) = replies_of (dlv s) /\ dlv s ++ inq s = hist s
+  /\ (pipe s = false -> inflight s = []).
 
 Lemma upd_eqb_eq a b : upd_eqb a b = true -> a = b.
 Proof.
@@ -84,17 +88,34 @@ Qed.
 
 Lemma kinv_step s l s' : KInv s -> step limit s l = Some s' -> KInv s'.
 Proof.
-  intros (A & B) Hs.
-  destruct s as [sent0 replied0 awaited0 inq0 hist0 dlv0 hp0 rdy0 sl0 counter0 recv0 cblog0].
-  cbn in A, B.
-  destruct l; cbn in Hs; crush_step Hs; subst; unfold KInv; cbn in *;
-    rewrite ?ro_snoc_await, ?ro_snoc_reply, ?ro_cons_await, ?ro_cons_reply, ?app_nil_r in *; cbn; rewrite ?app_nil_r;
-    try (split; [assumption|]); try (split; [|assumption]); try (split; assumption).
-  all: try (rewrite app_assoc; reflexivity).
-  all: try (rewrite <- app_assoc; reflexivity).
-  all: try (rewrite <- A; rewrite ?app_nil_r; reflexivity).
-  all: try (split; [congruence|]; rewrite <- app_assoc; reflexivity).
+  intros (A & B & P) Hs.
+  destruct s as [sent0 replied0 awaited0 inq0 hist0 dlv0 hp0 rdy0 sl0 counter0 recv0 cblog0 pipe0 inflight0].
+  cbn in A, B, P.
+  destruct l; cbn in Hs; crush_step Hs; subst; unfold KInv; cbn [cblog inflight hp dlv inq hist pipe pend] in *;
+    rewrite ?ro_snoc_await, ?ro_snoc_reply, ?app_nil_r in *.
+  all: try (repeat split; try assumption; try (rewrite <- app_assoc; reflexivity); fail).
+  - (* LDeliver, pipeline submit *)
+    repeat split.
+    + rewrite app_assoc. rewrite A. reflexivity.
+    + rewrite <- app_assoc. reflexivity.
+    + intros E. apply andb_true_iff in Heqb as [E1 _]. congruence.
+  - (* LDeliver, handler callback pending *)
+    repeat split; auto.
+    + rewrite app_assoc. rewrite A. reflexivity.
+    + rewrite <- app_assoc. reflexivity.
+  - (* LCb: nothing in flight *)
+    apply andb_true_iff in Heqb as [_ G].
+    assert (inflight0 = []) as ->.
+    { destruct pipe0; cbn in G; [destruct inflight0; [reflexivity|discriminate]|auto]. }
+    cbn in *. rewrite app_nil_r. repeat split; auto.
+  - (* LApply *)
+    repeat split; auto.
+    + rewrite <- app_assoc. exact A.
+    + intros E. specialize (P E). discriminate.
 Qed.
+
+Lemma kinv_init p : KInv (init_p p).
+Proof. repeat split. Qed.
 
 Lemma kinv_run ls : forall s s', KInv s -> run limit s ls = Some s' -> KInv s'.
 Proof.
